@@ -118,7 +118,7 @@ theorem cz_runActs {goC : GoC} (h : GoCz cid goC) {d id acts s L}
       have hLa : LG cid (L ++ [.act id (.sendSlot spec slot)])
           (xtra cid (.sendNolock none false false spec (.client id) [])) s :=
         hL0.snoc_send_any (sentOfAct_sendSlot spec slot)
-      have hpost : ∀ (s' : St) (st : Ret), (if st == .ok then s'.modClient id fun c =>
+      have hpost : ∀ (s' : St) (st : Ret), (if st == .ok && s'.byQid.any (·.1 == (genQid 70000 s).1) then s'.modClient id fun c =>
           if slot == 0 then { c with qidA := (genQid 70000 s).1 } else { c with qidAAAA := (genQid 70000 s).1 }
           else s').sk = s'.sk := by
         intro s' st
@@ -133,7 +133,7 @@ theorem cz_runActs {goC : GoC} (h : GoCz cid goC) {d id acts s L}
         · simpa using hoof
         · exact hoof
       rcases runActs_send h.goOk (spec := spec) hw hf' hpre.1 ha
-        (fun s' st => if st == .ok then s'.modClient id fun c =>
+        (fun s' st => if st == .ok && s'.byQid.any (·.1 == (genQid 70000 s).1) then s'.modClient id fun c =>
           if slot == 0 then { c with qidA := (genQid 70000 s).1 } else { c with qidAAAA := (genQid 70000 s).1 } else s')
         hpost with hoof | ⟨_, hp1, _⟩
       · refine Or.inl (h.oof ?_)
@@ -143,9 +143,11 @@ theorem cz_runActs {goC : GoC} (h : GoCz cid goC) {d id acts s L}
       -- the `.slot` item (if any) and the stored query id do not touch the counters
       have hL1' : LG cid ((L ++ [.act id (.sendSlot spec slot)] ++
             (goC (.sendNolock none false false spec (.client id) []) s).2) ++
-            (if (goC (.sendNolock none false false spec (.client id) []) s).1.2 == .ok
+            (if (goC (.sendNolock none false false spec (.client id) []) s).1.2 == .ok &&
+                (goC (.sendNolock none false false spec (.client id) []) s).1.1.byQid.any (·.1 == (genQid 70000 s).1)
               then [CItem.slot id slot (genQid 70000 s).1] else [])) 0
-          (if (goC (.sendNolock none false false spec (.client id) []) s).1.2 == .ok then
+          (if (goC (.sendNolock none false false spec (.client id) []) s).1.2 == .ok &&
+              (goC (.sendNolock none false false spec (.client id) []) s).1.1.byQid.any (·.1 == (genQid 70000 s).1) then
             (goC (.sendNolock none false false spec (.client id) []) s).1.1.modClient id fun c =>
               if slot == 0 then { c with qidA := (genQid 70000 s).1 } else { c with qidAAAA := (genQid 70000 s).1 }
            else (goC (.sendNolock none false false spec (.client id) []) s).1.1) := by
